@@ -318,7 +318,7 @@ def _compile(ctx, model):
     mem = ce.members.get("_compile")
     if mem is None or mem.kind != "func":
         raise AnalysisError("CompiledExpression._compile not found")
-    fn = mem.node
+    fn = model.inlined(mem.node)
     loc = where(mem)
     src = ast.unparse(fn)
     # dependency mapper with all composite kinds off
@@ -358,7 +358,9 @@ def _compile(ctx, model):
                    "TypeError")
         else:
             ks = ast.unparse(key)
-            if not (ks == "str" or ".name" in ks or "str(" in ks):
+            if not (ks == "str" or ".name" in ks or "str(" in ks
+                    or ks.replace('"', "'") in ("attrgetter('name')",
+                                                "operator.attrgetter('name')")):
                 ok = False
                 why = f"sort key {ks} is not a string key"
     if not sorts:
@@ -584,14 +586,57 @@ def _to_function(ctx, model):
            "leaves switched ON and then reads .name off each: a call or subscript "
            "in the expression raises AttributeError, and its variables never "
            "become parameters")
-    src = ast.unparse(fn).replace(" ", "")
-    ok = "kwonlyargs=[ast.arg(dep,None)fordepindeps]" in src and \
-        "deps=sorted(" in src
+    # (def-use: names are followed to the single expression assigned to them)
+    U = lambda n: ast.unparse(n).replace(" ", "")       # noqa: E731
+
+    def resolve(e, depth=0):
+        if isinstance(e, ast.Name) and depth < 4:
+            vals = [st.value for st in ast.walk(fn) if isinstance(st, ast.Assign)
+                    and len(st.targets) == 1 and isinstance(st.targets[0],
+                                                            ast.Name)
+                    and st.targets[0].id == e.id]
+            if len(vals) == 1:
+                return resolve(vals[0], depth + 1)
+        return e
+
+    fdefs = [c for c in ast.walk(fn) if isinstance(c, ast.Call)
+             and U(c.func) == "ast.FunctionDef"]
+    if len(fdefs) != 1:
+        raise AnalysisError("to_evaluatable_python_function: ast.FunctionDef "
+                            "construction not found")
+    fkw = {k.arg: resolve(k.value) for k in fdefs[0].keywords}
+    sig = fkw.get("args")
+    ok = False
+    if isinstance(sig, ast.Call) and U(sig.func) == "ast.arguments":
+        akw = {k.arg: k.value for k in sig.keywords}
+        kwo = resolve(akw.get("kwonlyargs")) if "kwonlyargs" in akw else None
+        empties = all(U(akw.get(x, ast.Constant(value=None))) in ("[]", "None")
+                      for x in ("args", "posonlyargs", "vararg", "kwarg",
+                                "defaults"))
+        if isinstance(kwo, ast.ListComp) and len(kwo.generators) == 1 and \
+                not kwo.generators[0].ifs and isinstance(kwo.elt, ast.Call) and \
+                U(kwo.elt.func) == "ast.arg" and kwo.elt.args and \
+                U(kwo.elt.args[0]) == U(kwo.generators[0].target):
+            names = resolve(kwo.generators[0].iter)
+            sorted_names = isinstance(names, ast.Call) and \
+                U(names.func) == "sorted" and len(names.args) == 1 and \
+                isinstance(names.args[0], (ast.SetComp, ast.ListComp,
+                                           ast.GeneratorExp)) and \
+                isinstance(names.args[0].elt, ast.Attribute) and \
+                names.args[0].elt.attr == "name"
+            ok = empties and sorted_names
     ctx.ob("P/to_function/kwonly-sorted", ok, loc,
            "keyword-only parameters, sorted" if ok else
            "the function's parameters are not the sorted dependency names as "
            "keyword-only arguments")
-    ok = "body=[ast.Return(to_python_ast(expr))]" in src
+    body = fkw.get("body")
+    ok = False
+    if isinstance(body, ast.List) and len(body.elts) == 1:
+        ret = resolve(body.elts[0])
+        ok = isinstance(ret, ast.Call) and U(ret.func) == "ast.Return" and \
+            len(ret.args) == 1 and isinstance(resolve(ret.args[0]), ast.Call) and \
+            U(resolve(ret.args[0]).func) == "to_python_ast" and \
+            U(resolve(ret.args[0]).args[0]) == fn.args.args[0].arg
     ctx.ob("P/to_function/body", ok, loc,
            "body returns the exported expression" if ok else
            "function body is not 'return <exported expression>'")
